@@ -110,7 +110,7 @@ theorem ninv_hstep (x : State × Hist) (op : Op) (h : NInv x) : NInv (hstep x op
           else { s with client := Client.incoming s.client p hs' ds bs }).server p full es)
       rw [hsv0]
       exact sinv_incoming p full es hs
-  | sending p st => exact ⟨cinv_sendingChanged p st hc, hs, nil⟩
+  | sending p src st => exact ⟨cinv_sendingChanged p src st hc, hs, nil⟩
   | newBlocks bs =>
     exact ⟨hc, sinv_newBlocks bs hs (fun kd hk => Or.inr (List.mem_append_right _ hk)), nil⟩
   | complete seq r =>
